@@ -12,7 +12,62 @@ pub(crate) enum TextPartKind {
     ErrorLabel,
 }
 
+#[cfg(feature = "verif")]
+pub mod verif {
+    //! Diagnostic capture for the verification harness (feature `verif`).
+    use std::cell::RefCell;
+
+    thread_local! {
+        static SINK: RefCell<Option<Vec<(String, &'static str, bool)>>> = const { RefCell::new(None) };
+    }
+
+    /// Starts capturing everything the session would print to stderr on this thread.
+    pub fn start_capture() {
+        SINK.with(|s| *s.borrow_mut() = Some(Vec::new()));
+    }
+
+    /// Stops capturing and returns the `(text, part kind, coloured)` parts.
+    pub fn take_capture() -> Vec<(String, &'static str, bool)> {
+        SINK.with(|s| s.borrow_mut().take().unwrap_or_default())
+    }
+
+    pub(crate) fn capture(parts: &[(String, super::TextPartKind)], colored: bool) -> bool {
+        SINK.with(|s| {
+            if let Some(sink) = s.borrow_mut().as_mut() {
+                for (text, kind) in parts.iter() {
+                    sink.push((text.clone(), kind.name(), colored));
+                }
+                true
+            } else {
+                false
+            }
+        })
+    }
+}
+
+#[cfg(feature = "verif")]
+impl TextPartKind {
+    fn name(self) -> &'static str {
+        match self {
+            Self::Space => "Space",
+            Self::Margin => "Margin",
+            Self::Path => "Path",
+            Self::MainMessage => "MainMessage",
+            Self::TextNormal => "TextNormal",
+            Self::TextAlt => "TextAlt",
+            Self::NoteLabel => "NoteLabel",
+            Self::ErrorTextNormal => "ErrorTextNormal",
+            Self::ErrorTextAlt => "ErrorTextAlt",
+            Self::ErrorLabel => "ErrorLabel",
+        }
+    }
+}
+
 pub(crate) fn output_stderr_plain(parts: &[(String, TextPartKind)]) {
+    #[cfg(feature = "verif")]
+    if verif::capture(parts, false) {
+        return;
+    }
     fn inner(parts: &[(String, TextPartKind)]) -> Result<(), std::io::Error> {
         use std::io::Write as _;
 
@@ -27,6 +82,10 @@ pub(crate) fn output_stderr_plain(parts: &[(String, TextPartKind)]) {
 
 #[cfg(feature = "crossterm")]
 pub(crate) fn output_stderr_colored(parts: &[(String, TextPartKind)]) {
+    #[cfg(feature = "verif")]
+    if verif::capture(parts, true) {
+        return;
+    }
     fn inner(parts: &[(String, TextPartKind)]) -> Result<(), std::io::Error> {
         use std::io::Write as _;
 
